@@ -23,6 +23,9 @@ enum Op {
     ConnectIn(usize),
     /// a connection that is accepted and then says nothing, ever (kept open)
     SilentIn(usize),
+    /// the next accept() on a bound tcp endpoint fails (a transient condition of the process or of
+    /// the queued connection); the endpoint stays bound and goes on accepting
+    AcceptFails(usize, u8),
     Exchange(usize),
     /// a second socket tries to bind an endpoint this socket is listening on
     OtherSocketBind(usize),
@@ -46,7 +49,7 @@ fn bookkeeping(ctx: &mut Ctx) {
     let nops = 2 + ctx.plan(11) as usize;
     let mut ops = Vec::new();
     for _ in 0..nops {
-        let o = match ctx.plan(16) {
+        let o = match ctx.plan(19) {
             0 | 1 => Op::BindTcp4,
             2 => Op::BindTcp6,
             3 => Op::BindLocalhost,
@@ -58,6 +61,7 @@ fn bookkeeping(ctx: &mut Ctx) {
             10 | 11 => Op::ConnectIn(ctx.plan(8) as usize),
             14 => Op::OtherSocketBind(ctx.plan(8) as usize),
             12 => Op::SilentIn(ctx.plan(8) as usize),
+            13 => Op::AcceptFails(ctx.plan(8) as usize, ctx.plan(4) as u8),
             _ => Op::Exchange(ctx.plan(8) as usize),
         };
         ops.push(o);
@@ -262,6 +266,31 @@ fn bookkeeping(ctx: &mut Ctx) {
                             rt::task::idle().await;
                         }
                         Err(e) => bail!("bound_endpoint_refuses", "op {n}: {text} is in the bind set but refuses a connection: {e}"),
+                    }
+                }
+                Op::AcceptFails(i, which) => {
+                    let tcp: Vec<String> = model.iter().filter(|m| m.starts_with("tcp://")).cloned().collect();
+                    if tcp.is_empty() {
+                        continue;
+                    }
+                    let text = tcp[*i % tcp.len()].clone();
+                    // ECONNABORTED, EMFILE / ENFILE (no ErrorKind of their own), ENOMEM, EINTR
+                    let kind = [std::io::ErrorKind::ConnectionAborted, std::io::ErrorKind::Other, std::io::ErrorKind::OutOfMemory, std::io::ErrorKind::Interrupted][*which as usize % 4];
+                    if rt::rt().net.borrow().inject_accept_error(&ep_key(&text), kind) {
+                        rt::count("fault_accept_error");
+                        rt::task::idle().await;
+                        match RawPeer::connect(&text) {
+                            Ok(mut p) => {
+                                let _ = p.hello(peer_type, None).await;
+                                rt::task::idle().await;
+                                if p.inbound().items.len() < 2 {
+                                    bail!("endpoint_dead_after_accept_error", "op {n}: one accept() on {text} failed with {kind:?}; the endpoint is still in the bind set, a later connection to it was opened but never answered");
+                                }
+                                conns.push((p, text, next_id));
+                                next_id += 1;
+                            }
+                            Err(e) => bail!("endpoint_dead_after_accept_error", "op {n}: one accept() on {text} failed with {kind:?}; the endpoint is still in the bind set but refuses connections now: {e}"),
+                        }
                     }
                 }
                 Op::Exchange(j) => {
